@@ -185,7 +185,7 @@ impl<'a> GenericDataEncoder<'a> {
     }
 
     pub fn use_macro_if_possible(&mut self) {
-        if !self.codewords.is_empty() && !self.data.ends_with(MACRO_TRAIL) {
+        if !self.codewords.is_empty() || !self.data.ends_with(MACRO_TRAIL) {
             return;
         }
         for (head, cw) in [(MACRO05_HEAD, MACRO05), (MACRO06_HEAD, MACRO06)] {
